@@ -819,12 +819,22 @@ class Checker:
                 exec(compile_stmts([fd], None, f"<spec {name}>"), self.ns)
             except Exception as e:
                 self.ns_errors.append(f"spec function {name}: {type(e).__name__}: {e}")
-        try:
-            import inputs
-            self.hooks = inputs
-        except Exception as e:  # hooks are optional
-            self.hooks = None
-            self.ns_errors.append(f"inputs.py not usable: {type(e).__name__}: {e}")
+        # input hooks: inputs.py plus every inputs_<package>.py next to this file (merged into one namespace)
+        import glob as _glob
+        import importlib as _importlib
+        import types as _types
+        hooks = _types.SimpleNamespace()
+        here = os.path.dirname(os.path.abspath(__file__))
+        for path in sorted(_glob.glob(os.path.join(here, "inputs*.py"))):
+            modname = os.path.splitext(os.path.basename(path))[0]
+            try:
+                m = _importlib.import_module(modname)
+                for k, v in vars(m).items():
+                    if k.startswith("gen_"):
+                        setattr(hooks, k, v)
+            except Exception as e:  # hooks are optional
+                self.ns_errors.append(f"{modname}.py not usable: {type(e).__name__}: {e}")
+        self.hooks = hooks
 
     def note_once(self, s):
         if s not in self.notes:
